@@ -884,6 +884,51 @@ Definition gGop (v : value) : gop :=
   let a := gAddr (nth_v 2 v) in
   match gN (nth_v 0 v) with 0 => GSet i a (gS (nth_v 3 v)) | _ => GRead i a end.
 
+(* ------------------------------------------------------------------ *)
+(* NormalizedString: normalize, set, and the wrapped value lines of serialize().
+   textwrap.wrap is NOT modelled: its result (the list of chunks) is an explicit input. *)
+Definition is_nsep (c : N) : bool := (c =? SP) || (c =? TAB) || (c =? LF) || (c =? CR).
+Fixpoint swc (s : str) : str * list str :=
+  match s with
+  | [] => ([], [])
+  | c :: s' =>
+      let '(t, ts) := swc s' in
+      if is_nsep c then ([], match t with [] => ts | _ => t :: ts end) else (c :: t, ts)
+  end.
+Definition split_nsep (s : str) : list str :=
+  let '(t, ts) := swc s in match t with [] => ts | _ => t :: ts end.
+(* utils.str.normalizeWhitespace(s.strip()) *)
+Definition normalize (s : str) : str := join [SP] (split_nsep (strip_ws s)).
+(* NormalizedString.set(s): String.set(normalize(s)), whose setValue normalizes again *)
+Definition norm_set (s : str) : res str :=
+  do v <- string_parse (normalize s); Ok (normalize v).
+
+(* the physical lines of `name: serialize()`: chunks = textwrap.wrap(String.serialize(), 76 - prefixLen) *)
+Definition indent_of (name : str) : str := repeat SP (length name + 2).
+Fixpoint cont_lines (ind : str) (cs : list str) : list str :=   (* lines after the first *)
+  match cs with
+  | [] => []
+  | [c] => [ind ++ c]
+  | c :: cs' => (ind ++ c ++ [BSL]) :: cont_lines ind cs'
+  end.
+Definition wrapped_lines (name : str) (chunks : list str) : list str :=
+  match chunks with
+  | [] => [name ++ [COLON; SP]]
+  | [c] => [name ++ [COLON; SP] ++ c]
+  | c :: cs => (name ++ [COLON; SP] ++ c ++ [BSL]) :: cont_lines (indent_of name) cs
+  end.
+Definition wrapped_text (name : str) (chunks : list str) : str :=
+  flat_map (fun l : str => l ++ [LF]) (wrapped_lines name chunks).
+(* what the reader is expected to reassemble: the chunks glued with the indentation in between *)
+Fixpoint glue (ind : str) (cs : list str) : str :=
+  match cs with [] => [] | [c] => c | c :: cs' => c ++ ind ++ glue ind cs' end.
+Definition norm_reload (name : str) (chunks : list str) (fresh : str) : res str :=
+  do kvs <- open_registry (wrapped_text name chunks);
+  match cache_get name kvs with
+  | None => Ok fresh
+  | Some t => norm_set t
+  end.
+
 (* run: (op payload)
    0 names            -> (join text, result of split (join names))
    1 text             -> result of split text
@@ -892,7 +937,9 @@ Definition gGop (v : value) : gop :=
    4 (kind name fresh oks v) -> (value_line, open_registry of it, reload)
    5 text             -> open_registry text
    6 (kind dflt init ops) -> outcomes of the history on the tree
-   7 (decls gens) -> per generation: the saved lines and the values read, or the error *)
+   7 (decls gens) -> per generation: the saved lines and the values read, or the error
+   8 (name chunks fresh text value) -> NormalizedString: wrapped file text, its open_registry, the reloaded value,
+     norm_set text, the text handed to textwrap for value *)
 Definition run (v : value) : value :=
   let p := nth_v 1 v in
   match gN (nth_v 0 v) with
@@ -914,6 +961,11 @@ Definition run (v : value) : value :=
          let t0 := mktree pv (gPV (nth_v 2 p)) [] [] in
          let '(_, rs) := run_ops pv (k_reparse k dflt) (k_settext k) t0 (map gOp (gL (nth_v 3 p))) in
          L (map (vR vPV) rs)
+  | 8 => let name := gS (nth_v 0 p) in
+         let chunks := gLS (nth_v 1 p) in
+         L [vS (wrapped_text name chunks); vR (fun l => L (map vKV l)) (open_registry (wrapped_text name chunks));
+            vR vS (norm_reload name chunks (gS (nth_v 2 p))); vR vS (norm_set (gS (nth_v 3 p)));
+            vS (uesc (string_str (gS (nth_v 4 p))))]
   | 7 => L (map (vR (fun r : list (str * str) * list pv => L [L (map vKV (fst r)); L (map vPV (snd r))]))
               (generations (map gDecl (gL (nth_v 0 p))) [] (map (fun g => map gGop (gL g)) (gL (nth_v 1 p)))))
   | _ => L []
